@@ -799,8 +799,11 @@ class Pickled(OpcodeSequence):
     @property
     def properties(self) -> ASTProperties:
         if self._properties is None:
-            self._properties = ASTProperties()
-            self._properties.visit(self.ast)
+            # only cache a fully populated summary: if interpreting the pickle raises, the next
+            # query must raise again instead of seeing an empty (import- and call-free) summary
+            properties = ASTProperties()
+            properties.visit(self.ast)
+            self._properties = properties
         return self._properties
 
     @property
